@@ -141,21 +141,9 @@ theorem unpack_keeps_unresolvable (b : UserBounds) (n : Nat) (h : b.tryIntoRange
   simp only [UserBounds.unpack, h]
 
 /-- and so does `--complement` -/
-theorem complement_keeps_unresolvable (b : UserBounds) (n : Nat) (t : List BoF)
-    (h : b.tryIntoRange n = none) :
-    (BoF.bound b :: t).flatMap (fun
-      | .bound b =>
-        match b.complement n with
-        | some bs => bs.map BoF.bound
-        | none => [.bound { b with isLast := false }]
-      | .filler f => [.filler f]) =
-    .bound { b with isLast := false } :: t.flatMap (fun
-      | .bound b =>
-        match b.complement n with
-        | some bs => bs.map BoF.bound
-        | none => [.bound { b with isLast := false }]
-      | .filler f => [.filler f]) := by
-  simp only [List.flatMap_cons, UserBounds.complement, h, Option.map_none, List.singleton_append]
+theorem complement_keeps_unresolvable (b : UserBounds) (n : Nat) (h : b.tryIntoRange n = none) :
+    complementBof n (.bound b) = [.bound { b with isLast := false }] := by
+  simp only [complementBof, UserBounds.complement, h, Option.map_none]
 
 /-- non-vacuity: `5=x` on three parts is unresolvable and has its own fallback -/
 example : ({ l := .some 5, r := .some 5, fallback := some [0x78] } : UserBounds).tryIntoRange 3 = none := by
